@@ -1,4 +1,5 @@
 import re
+from weakref import WeakKeyDictionary
 from ...abbreviation import AbbreviationNode
 from ...config import Config
 from ...list_utils import get_item
@@ -112,7 +113,7 @@ def parse_bem(class_value=''):
     return BEMData(class_names, find_block_name(class_names))
 
 
-def get_block_name(ancestors: list, depth=0, context: dict=None, lookup={}):
+def get_block_name(ancestors: list, depth=0, context: dict=None, lookup=WeakKeyDictionary()):
     """
     Returns block name for given `node` by `prefix`, which tells the depth of
     of parent node lookup
